@@ -11,7 +11,7 @@ from dask_array.creation import arange
 from dask_array._backends_array import array_creation_dispatch
 from dask.utils import derived_from, typename
 
-from ._utils import _wrap_func
+from ._utils import _advance_rng, _snapshot_rng, _wrap_func
 
 
 class RandomState:
@@ -89,7 +89,9 @@ class RandomState:
                 meta,
             ) = _choice_validate_params(self, a, size, replace, p, 0, chunks)
 
-            return new_collection(RandomChoice(a_val, a_expr, chunks, meta, self._numpy_state, replace, p_expr))
+            expr = RandomChoice(a_val, a_expr, chunks, meta, _snapshot_rng(self._numpy_state), replace, p_expr)
+            _advance_rng(self._numpy_state, len(expr.sizes))
+            return new_collection(expr)
 
     @derived_from(np.random.RandomState, skipblocks=1)
     def exponential(self, scale=1.0, size=None, chunks="auto", **kwargs):
